@@ -25,6 +25,10 @@ CHECKS = {
   text="The complete operator x haystack-kind x needle-kind decision table (270 cells) of Searches.search_matches is extracted by partial evaluation of its AST and compared cell by cell with an oracle table written from the documented rules; typed_value's boolean spellings and caught failures, exception escape, and the XOR truth table of each inversion predicate are decided structurally. Exhaustive over the finite kind lattice; Python's operator semantics and literal_eval's classification are the trusted base.",
   note="Trusted base: Python comparison operators, ast.literal_eval's classification of text, re.compile/.search; bool is a subtype of int.",
   technique="partial evaluation / decision-table extraction compared with an oracle table; truth-table evaluation of inversion predicates"),
+ "C16": dict(
+  text="Path-sensitive three-valued abstract interpretation of every exit-status variable in the seven tools (a failure code is never overwritten by a possibly-zero value; helper statuses are never dropped), failure recording in every library-exception handler and not-loaded branch, yaml-get / yaml-diff tool tables, loader agreement between file and stdin, never-returning critical(), console-script resolution. These are code paths no passing test executes; stdout content equality is declined.",
+  note="Trusted base: sys.exit never returns; Python structured control flow; argparse attributes unmodelled.",
+  technique="abstract interpretation of exit-state variables ({zero, non-zero, either}) over structured control flow + handler/branch obligation rules"),
 }
 
 NOT_BUILT = "check not built yet (framework under construction; will be claimed at clause level per DESIGN.md)"
